@@ -191,7 +191,7 @@ class G:
         r = self.r
         op = r.choices(["add", "cadd", "addint", "addmany", "rem", "crem", "addr", "remr", "flip", "clear", "opt",
                         "cloneswap", "detach", "setcow", "query", "walk4096", "fillempty"],
-                       [10, 8, 2, 4, 8, 8, 8, 8, 8, 0.3, 2, 1, 1, 1, 6, 1, 1])[0]
+                       [10, 8, 2, 4, 8, 8, 8, 8, 8, 0.3, 2, 1, 1, 1, 6, 2.5, 1])[0]
         self.count("histop:" + op)
         if op in ("add", "cadd", "addint", "rem", "crem"):
             self.emit("%s %s %d" % (op, x, self.val_near(keys)))
@@ -222,15 +222,35 @@ class G:
         elif op == "query":
             self.emit(r.choice(["card %s", "empty %s", "wf %s", "size %s"]) % x)
         elif op == "walk4096":
-            # walk one chunk across the 4095/4096/4097 array<->bitmap threshold
+            # walk one chunk across the 4095/4096/4097 array<->bitmap threshold, with every point mutator,
+            # starting from an ARRAY chunk (scattered values) or from a RUN chunk (one range)
             k = r.choice(list(keys)) if keys else 0
             base = k * CH
             self.emit("remr %s %d %d" % (x, base, base + CH))
-            self.emit("addr %s %d %d" % (x, base + 10, base + 10 + 4095))
-            for v in (base + 9000, base + 9002, base + 9004):
-                self.emit("cadd %s %d" % (x, v))
-            for v in (base + 9000, base + 20, base + 9004, base + 9002):
-                self.emit("crem %s %d" % (x, v))
+            n0 = r.choice([4094, 4095, 4096])
+            if r.random() < 0.7:
+                off = r.randrange(0, 50)
+                self.emit("addmany %s %s" % (x, " ".join(str(base + off + 2 * i) for i in range(n0))))   # array chunk
+                fresh_vals = [base + off + 2 * i + 1 for i in r.sample(range(n0), 4)]
+                old_vals = [base + off + 2 * i for i in r.sample(range(n0), 4)]
+                self.count("walk4096:array")
+            else:
+                self.emit("addr %s %d %d" % (x, base + 10, base + 10 + n0))                                  # run chunk
+                fresh_vals = [base + 9000, base + 9002, base + 9004, base + 9]
+                old_vals = [base + 10, base + 20, base + 10 + n0 - 1, base + 4000]
+                self.count("walk4096:run")
+            up = r.choice(["cadd", "add", "addint", "mixed", "addmany"])
+            if up == "addmany":
+                self.emit("addmany %s %s" % (x, " ".join(map(str, fresh_vals))))
+            else:
+                for v in fresh_vals:
+                    self.emit("%s %s %d" % (r.choice(["cadd", "add", "addint"]) if up == "mixed" else up, x, v))
+            self.emit("card %s" % x)
+            self.emit("wf %s" % x)
+            down = r.choice(["crem", "rem", "mixed"])
+            for v in fresh_vals[:2] + old_vals:
+                self.emit("%s %s %d" % (r.choice(["crem", "rem"]) if down == "mixed" else down, x, v))
+            self.emit("card %s" % x)
             self.emit("wf %s" % x)
         elif op == "fillempty":
             k = r.choice(list(keys)) if keys else 0
